@@ -14,7 +14,7 @@ def indent_of(line):
     return len(line) - len(line.lstrip(' '))
 
 
-def variants(src, r=None, limit=None):
+def variants(src, r=None, limit=None, file_level_only=False):
     """Yield (placement kind, variant text). One trivia item at a time."""
     lines = src.split('\n')
     if lines and lines[-1] == '':
@@ -26,7 +26,7 @@ def variants(src, r=None, limit=None):
         return '\n'.join(ls) + final
     out = []
     for i, l in enumerate(body):
-        if not l.strip():
+        if not l.strip() or file_level_only:
             continue
         out.append(('trailing-comment', join(body[:i] + [l + ' # note'] + body[i + 1:])))
         out.append(('trailing-comment-nospace', join(body[:i] + [l + '#note'] + body[i + 1:])))
@@ -52,8 +52,11 @@ def variants(src, r=None, limit=None):
     out.append(('comment-at-eof-no-newline', join(body + ['# the end'], '')))
     out.append(('comment-first-line', join(['# header'] + body)))
     out.append(('blank-first-lines', join(['', ''] + body)))
-    out.append(('crlf', join(body).replace('\n', '\r\n')))
-    out.append(('crlf-with-comment', join([body[0] + ' # c'] + body[1:]).replace('\n', '\r\n')))
+    if not file_level_only:
+        # (a line break inside a string literal is content, not trivia: programs with multi-line strings get their CRLF variant through
+        # the binary, whose writer normalises line endings - see crlf_through_binary)
+        out.append(('crlf', join(body).replace('\n', '\r\n')))
+        out.append(('crlf-with-comment', join([body[0] + ' # c'] + body[1:]).replace('\n', '\r\n')))
     if limit and len(out) > limit and r is not None:
         keep = set(r.sample(range(len(out)), limit))
         out = [v for k, v in enumerate(out) if k in keep]
@@ -85,7 +88,36 @@ def context_of(src, variant):
     return f'{prv}>{nxt}'
 
 
-def judge_program(w, src, part, origin, r, limit, annotate=False):
+def crlf_through_binary(part, name, src, annotate):
+    """LF and CRLF copies of one source through the real binary: same exit status, byte-identical .py."""
+    import subprocess, tempfile, shutil
+    root = tempfile.mkdtemp(prefix='c14-', dir=common.TARGET)
+    try:
+        outs = []
+        for tag, text in (('lf', src), ('crlf', src.replace('\n', '\r\n'))):
+            d = os.path.join(root, tag); os.makedirs(d)
+            with open(os.path.join(d, 'prog.mamba'), 'w', encoding='utf-8', newline='') as f:
+                f.write(text)
+            p = subprocess.run([common.CLI] + (['-a'] if annotate else []) + ['-i', 'prog.mamba', '-o', 'out'], cwd=d, stdout=subprocess.PIPE, stderr=subprocess.PIPE, timeout=60)
+            py = os.path.join(d, 'out', 'prog.py')
+            outs.append((p.returncode, open(py, 'rb').read() if os.path.exists(py) else None))
+        part.count('crlf-through-binary')
+        wit = {'kind': 'trivia', 'origin': 'text:' + name, 'placement': 'crlf-through-binary', 'annotate': annotate, 'base': src}
+        if outs[0][0] != outs[1][0]:
+            part.violation('verdict-changes:crlf-through-binary', dict(wit, exits=[outs[0][0], outs[1][0]]))
+        elif outs[0][1] != outs[1][1]:
+            a, b = outs[0][1] or b'', outs[1][1] or b''
+            at = next((i for i in range(min(len(a), len(b))) if a[i] != b[i]), min(len(a), len(b)))
+            part.violation('output-changes:crlf-through-binary', dict(wit, first_difference_at_byte=at, lf=a[max(0, at - 30):at + 30].decode('utf-8', 'replace'), crlf=b[max(0, at - 30):at + 30].decode('utf-8', 'replace')))
+        else:
+            part.held(('crlf-through-binary', name, outs[0][0]))
+    except subprocess.TimeoutExpired:
+        part.inconc('binary-timeout')
+    finally:
+        shutil.rmtree(root, ignore_errors=True)
+
+
+def judge_program(w, src, part, origin, r, limit, annotate=False, file_level_only=False):
     base = w.pipe(src, annotate=annotate)
     kb = base.get('k')
     if kb not in ('ok', 'err'):
@@ -94,7 +126,7 @@ def judge_program(w, src, part, origin, r, limit, annotate=False):
     if base2.get('k') != kb or base2.get('py') != base.get('py'):
         part.inconc('nondeterministic-baseline'); return
     part.count('base-' + kb)
-    for kind, var in variants(src, r, limit):
+    for kind, var in variants(src, r, limit, file_level_only):
         res = w.pipe(var, annotate=annotate)
         kv = res.get('k')
         if kv not in ('ok', 'err'):
@@ -204,6 +236,14 @@ def shard(i, n, nprog, stride):
             r = rng(PROP, 'sweep', kk)
             judge_program(w, lang.to_mamba(prog), part, 'sweep:' + cell, r, 40, annotate=bool(kk % 2))
             part.count('programs')
+    # programs with doc-strings and multi-line strings: only the trivia that stands outside every line (line endings, final newline, first / last line)
+    from . import c19
+    for name, src in c19.TEXT_BASES.items():
+        k += 1
+        if k % n == i and '\r' not in src:
+            judge_program(w, src, part, 'text:' + name, rng(PROP, 'text', name), None, annotate=bool(k % 2), file_level_only=True)
+            crlf_through_binary(part, name, src, annotate=bool(k % 2))
+            part.count('programs'); part.count('multi-line-string-programs')
     for rel, src in common.repo_samples('valid'):
         k += 1
         if k % n != i or len(src) > 1800 or '"""' in src or any(l.count('"') % 2 for l in src.split('\n')) or '\r' in src:
@@ -251,7 +291,7 @@ def replay_entries(rep):
 
 
 def main(tier):
-    common.build()
+    common.build(cli=True)
     rep = Report(PROP, tier, 'exploration')
     rep.rule = ('one evaluation = one (program, trivia variant) pair through the real pipeline: a trailing comment / trailing spaces on a line, a whole-line comment before a line indented '
                 'like the next or like the previous statement, 1-3 blank lines, whitespace-only lines of three indentations, final-newline forms, comments at begin/end of file, CRLF; '
